@@ -1303,7 +1303,7 @@ def install(prog):
     @B('BTreeMap::insert', 'HashMap::insert')
     def b_map_insert(ctx, a, callee):
         m = R(a[0]).load()
-        k = map_key(a[1])
+        k = map_key(a[1], ctx, m)
         old = m.get(k)
         had = m.has(k)
         R(a[0]).store(m.insert(k, a[2]))
@@ -1312,7 +1312,7 @@ def install(prog):
     @B('BTreeSet::insert', 'HashSet::insert')
     def b_set_insert(ctx, a, callee):
         m = R(a[0]).load()
-        k = map_key(a[1])
+        k = map_key(a[1], ctx, m)
         had = m.has(k)
         R(a[0]).store(m.insert(k, UNIT))
         return not had
@@ -1321,7 +1321,7 @@ def install(prog):
     def b_map_get(ctx, a, callee):
         m = D(a[0])
         k = D(a[1])
-        if is_sym(k) or type(k) is SymStr:
+        if is_sym(k) or type(k) is SymStr or any(type(kk) is SymStr for kk, _ in m.items):
             # symbolic key: fork over the entries
             for kk, v in m.items:
                 if ctx.branch(sym_eq(ctx, kk, k)):
@@ -1337,7 +1337,7 @@ def install(prog):
         while type(r.load()) is Ref:
             r = r.load()
         m = r.load()
-        k = map_key(a[1])
+        k = map_key(a[1], ctx, m)
         if not m.has(k):
             return NONE
         return some(MapRef(r, k, m))
@@ -1364,7 +1364,7 @@ def install(prog):
     def b_map_contains(ctx, a, callee):
         m = D(a[0])
         k = D(a[1])
-        if is_sym(k) or type(k) is SymStr:
+        if is_sym(k) or type(k) is SymStr or any(type(kk) is SymStr for kk, _ in m.items):
             for kk, _ in m.items:
                 if ctx.branch(sym_eq(ctx, kk, k)):
                     return True
@@ -1374,7 +1374,7 @@ def install(prog):
     @B('BTreeMap::remove', 'HashMap::remove')
     def b_map_remove(ctx, a, callee):
         m = R(a[0]).load()
-        k = map_key(a[1])
+        k = map_key(a[1], ctx, m)
         if not m.has(k):
             return NONE
         R(a[0]).store(m.remove(k))
@@ -1383,7 +1383,7 @@ def install(prog):
     @B('BTreeSet::remove', 'HashSet::remove')
     def b_set_remove(ctx, a, callee):
         m = R(a[0]).load()
-        k = map_key(a[1])
+        k = map_key(a[1], ctx, m)
         had = m.has(k)
         R(a[0]).store(m.remove(k))
         return had
